@@ -128,6 +128,7 @@ def generate(tier, rng):
         out.append("DE any %s" % hexs(b"\xa1\x00" * dpt + b"\x00"))
         out.append("DE ign %s" % hexs(b"\x81" * dpt + b"\x00" + b"\x01"))
         out.append("DE seq(seq(i8)) %s" % hexs(b"\x81" * dpt + b"\x00"))
+    for n in (100, 127, 128, 129, 130, 200, 1000): out.append("SER disp h%s" % (("ab" * n)[:n].encode().hex()))
     for kind in ("chain", "nest", "list"):
         for dpt in (1, 100, 255, 256, 257, 300, 1000): out.append("SERD %s %d" % (kind, dpt))
     n_any = 20000 if tier == "thorough" else 600
